@@ -74,12 +74,14 @@ func init() {
 		NotDecided: []string{
 			"that the bodies of kmpDeduplicate, splitRing, dedupeInnersOuters, matchInnersToPolygons, sortPolyIdxsByOuterAreaDesc, ringContains neither panic nor loop: outside the verifier's reach (append into a re-sliced ring, ordered/sorted map libraries), only the bounded stand-ins ring-assembly-small-alphabet and snap-total-small. Their helpers kmpTable, kmpSearch, kmpSearchAll, RemoveSequences, ReverseClone, DeleteFromSliceByIndex, LastMatch, ringsAreEqual, ensureCorrectWindingOrder, outersToPolygons ARE proved safe and terminating",
 			"time bound (polynomial in the vertex count): termination of every loop of the verified functions is proved by decreases clauses, no complexity statement",
-			"tile matrices whose pixel level exceeds 32: known finding F6 (excluded by the precondition of SnapPolygon's contract)"},
+			"tile matrices whose pixel level exceeds 32: known finding F6 (excluded by the precondition of SnapPolygon's contract)",
+			"polygons inside the extent but outside the pixel grid (the strip of the reported deviation at the right / top edge of grids that do not divide evenly): known finding F10; the claim is for polygons inside the GRID (C09 makes the code reject the others)"},
 		Assumptions: []string{"preconditions of SnapPolygon's contract (ids in [0,1000], indexable tile matrix set, level <= 32, |ordinate| < 2e8, bounding box of matrix 0 at least as tall as the grid square)",
 			"trusted leaves ensureCorrectWindingOrder, cleanupNewRing, dedupeInnersOuters, outersToPolygons, matchInnersToPolygons, reverseWindingOrderIfConfigured: only that they return (or panic) without touching the index; callers treat their panic as possible"},
 		Extra: func(cc *checkCtx) *extraResult { return cc.runOverlayTests([]overlayTest{ringAssembly, totalSmall}) },
 		Demos: []findingDemo{{ID: "F6", Src: "f6_level_above_32_test.go", PkgRel: "snap", Run: "^TestGvcFindingF6$"},
-			{ID: "F9", Src: "f9_overlapping_removal_ranges_test.go", PkgRel: "snap", Run: "^TestGvcFindingF9$"}},
+			{ID: "F9", Src: "f9_overlapping_removal_ranges_test.go", PkgRel: "snap", Run: "^TestGvcFindingF9$"},
+			{ID: "F10", Src: "f10_rim_between_grid_and_extent_test.go", PkgRel: "snap", Run: "^TestGvcFindingF10$"}},
 	}
 	propertyPlans["C08"] = &PropertyPlan{ID: "C08",
 		NotDecided: []string{
